@@ -16,6 +16,8 @@ for f in files:
         n = r["ob"]
         if r["verdict"].startswith("undecided:timeout"):
             costs[n] = "undecided" if "--mark-undecided" in sys.argv else 999.0
+        elif r["verdict"].startswith("undecided:uf-table-overflow"):
+            costs[n] = "undecided"   # the uninterpreted-function tables of lib/uf.rs are too small for this body
         elif r.get("time_s") is not None and r["verdict"] in ("discharged", "canary-refuted", "known-finding"):
             costs[n] = round(float(r["time_s"]), 1)
 json.dump(costs, open(p, "w"), indent=0, sort_keys=True)
